@@ -380,6 +380,78 @@ def r11k(ctx, rep, rule="R11k"):
                  "bracket", [f.span])
 
 
+def r11m(ctx, rep, rule="R11m"):
+    """scan_symbol continues on exactly the characters string->symbol writes raw"""
+    from .. import shapes
+    facts = ctx["facts"]
+    rep.rule(rule, "one class for reader and encoder: string->symbol writes a non-initial character raw iff "
+             "lex::is_subsequent_identifier accepts it, so scan_symbol must continue a symbol on exactly that predicate — no "
+             "additional character it accepts by comparison. An extra `|| c == ';'` in the scanner (with the predicate narrowed) "
+             "makes the reader spell a;b raw while string->symbol escapes the `;`: two symbols, one name.")
+    f = need(rep, rule, facts, "marwood::lex::scan_symbol")
+    if f is None:
+        return
+    uses = any(callee(t) == "marwood::lex::is_subsequent_identifier" for bb, t in f.calls())
+    extra = []
+    for bb, j, st in f.stmts():
+        rv = st["rv"]
+        if rv["k"] == "bin" and rv["op"] in ("Eq", "Ne"):
+            for x, y in ((rv["a"], rv["b"]), (rv["b"], rv["a"])):
+                c = op_const(y)
+                if c is not None and c.get("ty") == "char" and "Peekable" in shapes.shape(f, x, 4):
+                    extra.append((c.get("int"), st["loc"]))
+    key = rule + "|scan_symbol|continuation-class"
+    if not uses:
+        rep.fail(rule, key, "scan_symbol no longer continues on lex::is_subsequent_identifier, the class string->symbol writes raw", [f.span])
+    elif extra:
+        rep.fail(rule, key, "scan_symbol accepts %s by comparison on top of is_subsequent_identifier: the reader's class of symbol "
+                 "characters differs from the one string->symbol writes raw" % ", ".join(repr(chr(c)) for c, _ in extra), [extra[0][1]])
+    else:
+        rep.ok(rule, key, "scan_symbol continues on is_subsequent_identifier only", [f.span])
+
+
+def r11n(ctx, rep, rule="R11n"):
+    """what can begin a symbol is never skipped as whitespace; string delimiters are removed by position"""
+    from .. import shapes
+    facts = ctx["facts"]
+    rep.rule(rule, "(1) a character that can begin a symbol is not skipped: this lexer's identifier class contains every character "
+             "above U+00FF, Unicode space separators included, so in lex::scan the arm that consumes a whitespace character is "
+             "entered only after is_initial_identifier failed — with the whitespace test first, a symbol that begins with such a "
+             "character (the printer writes it verbatim) reads back without it. (2) parse removes the delimiters of a string "
+             "token by position — the span minus its first and last byte — never by pattern: trim_matches('\"') also strips "
+             "an escaped quote at the end of the text.")
+    scan = need(rep, rule, facts, "marwood::lex::scan")
+    if scan is not None:
+        k = 0
+        for bb, t in scan.calls():
+            fa = t.get("fnargs") or ""
+            is_helper = (callee(t) or "").startswith("marwood::lex::") and not (callee(t) or "").startswith("marwood::lex::is_")
+            if not ((fa.endswith("as std::iter::Iterator>::next") and "Peekable" in fa) or is_helper):
+                continue
+            g = shapes.guard_shapes(scan, bb, None, 3)
+            if not any(x.startswith("char::methods::<char>::is_whitespace(") and x.endswith("=T") for x in g):
+                continue
+            k += 1
+            ok = any(x.startswith("lex::is_initial_identifier(") and x.endswith("=F") for x in g)
+            (rep.ok if ok else rep.fail)(
+                rule, "%s|scan|whitespace-after-identifier-test#%d" % (rule, k),
+                "lex::scan skips a whitespace character only after is_initial_identifier rejected it" if ok else
+                "lex::scan skips a whitespace character before asking is_initial_identifier: U+1680, U+2000-200A, U+3000 ... are "
+                "both, so a symbol beginning with one of them loses its first character when read back", [t["loc"]])
+        if k == 0:
+            rep.anchor_lost(rule, "whitespace-consuming arm of lex::scan")
+    p = need(rep, rule, facts, "marwood::parse::parse")
+    if p is not None:
+        trims = [t for bb, t in p.calls() if re.search(r"<impl str>::(trim\w*|strip_\w+)$", callee(t) or "")]
+        key = rule + "|parse|string-delimiters-by-position"
+        if trims:
+            rep.fail(rule, key, "parse strips the delimiters of a string token with %s: every trailing quote goes, also the escaped "
+                     "one of a string that ends in \\\", and the body then ends in a lone backslash" % short_path(callee(trims[0])).rsplit("::", 1)[-1],
+                     [trims[0]["loc"]])
+        else:
+            rep.ok(rule, key, "parse calls no trim / strip function on a token's text", [p.span])
+
+
 def run(ctx, rep):
     r11a(ctx, rep)
     r11b(ctx, rep)
@@ -394,6 +466,10 @@ def run(ctx, rep):
     r11h(ctx, rep)
     r11i(ctx, rep)
     r11k(ctx, rep)
+    from . import scanloop
+    scanloop.r11l(ctx, rep)
+    r11m(ctx, rep)
+    r11n(ctx, rep)
     from . import units
     units.r15a(ctx, rep, rule="R11d", scope=("marwood::lex::", "marwood::parse::", "marwood::syntax::"))
     rep.rules["R11d"] = "span units: " + rep.rules["R11d"]
